@@ -896,12 +896,42 @@ pub struct RunOutput
     pub skipped: Vec<(SkipReason, u32)>,
 }
 
+thread_local!
+{
+    /// ops waiting to be performed by the plain Bevy systems of the frame: (slot, top index, op)
+    static PENDING_SLOT_OPS: std::cell::RefCell<Vec<(u8, u32, Op)>> = std::cell::RefCell::new(Vec::new());
+}
+
+/// A plain Bevy system: performs the ops queued for its slot of the frame.
+fn slot_sys<const S: u8>(mut c: Commands)
+{
+    let mine: Vec<(u32, Op)> = PENDING_SLOT_OPS.with(|p| {
+        let mut p = p.borrow_mut();
+        let mine = p.iter().filter(|x| x.0 == S).map(|x| (x.1, x.2.clone())).collect();
+        p.retain(|x| x.0 != S);
+        mine
+    });
+    for (i, op) in mine { queue_op(&mut c, Sender::Top(i), 0, &op, None); }
+}
+
+fn settle_manual(world: &mut World)
+{
+    garbage_collect_entities(world);
+    schedule_removal_and_despawn_reactors(world);
+    garbage_collect_entities(world);
+}
+
 fn run_inner(program: &Program)
 {
+    PENDING_SLOT_OPS.with(|p| p.borrow_mut().clear());
     let mut app = App::new();
     app.add_plugins(ReactPlugin);
     app.insert_react_resource(RA(0));
     app.insert_react_resource(RB(0));
+    app.add_systems(Update, slot_sys::<0>);
+    app.add_systems(Last, slot_sys::<1>.before(AutoDespawnSet));
+    app.add_systems(Last, slot_sys::<2>.after(AutoDespawnSet).before(schedule_removal_and_despawn_reactors));
+    app.add_systems(Last, slot_sys::<3>.after(schedule_removal_and_despawn_reactors));
     let world = app.world_mut();
 
     // entities
@@ -936,42 +966,58 @@ fn run_inner(program: &Program)
     }
 
     verif_set_sink(Box::new(forward_hook));
-    quiescent(world, 0);
+    quiescent(app.world_mut(), 0);
 
     for (i, top) in program.top.iter().enumerate()
     {
         let i = i as u32;
         push(Ev::TopBegin(i));
+        let mut frame_ran = false;
         match top.via
         {
             Via::Commands =>
             {
+                let world = app.world_mut();
                 let mut c = world.commands();
                 queue_op(&mut c, Sender::Top(i), 0, &top.op, None);
                 world.flush();
             }
-            Via::Direct => direct_op(world, Sender::Top(i), &top.op),
+            Via::Direct => direct_op(app.world_mut(), Sender::Top(i), &top.op),
+            Via::System(slot) =>
+            {
+                PENDING_SLOT_OPS.with(|p| p.borrow_mut().push((slot % 4, i, top.op.clone())));
+                app.update();
+                frame_ran = true;
+            }
         }
         push(Ev::TopEnd(i));
-        quiescent(world, 1);
-        if top.settle
+        quiescent(app.world_mut(), 1);
+        if frame_ran
+        {
+            // the frame's own `Last` systems did the end-of-frame work; an op placed after the poll is due by the
+            // end of the next frame
+            if matches!(top.via, Via::System(s) if s % 4 == 3)
+            {
+                push(Ev::SettleBegin(i));
+                app.update();
+                push(Ev::SettleEnd(i));
+            }
+            quiescent(app.world_mut(), 3);
+        }
+        else if top.settle
         {
             push(Ev::SettleBegin(i));
-            garbage_collect_entities(world);
-            schedule_removal_and_despawn_reactors(world);
-            garbage_collect_entities(world);
+            if top.update { app.update(); } else { settle_manual(app.world_mut()); }
             push(Ev::SettleEnd(i));
-            quiescent(world, 2);
+            quiescent(app.world_mut(), if top.update { 3 } else { 2 });
         }
     }
     // final settle (always)
     let last = program.top.len() as u32;
     push(Ev::SettleBegin(last));
-    garbage_collect_entities(world);
-    schedule_removal_and_despawn_reactors(world);
-    garbage_collect_entities(world);
+    settle_manual(app.world_mut());
     push(Ev::SettleEnd(last));
-    quiescent(world, 2);
+    quiescent(app.world_mut(), 2);
 
     with_case(|case| case.active = false);
     verif_clear_sink();
